@@ -1137,7 +1137,25 @@ def special_requests(rng: random.Random) -> List[Dict[str, Any]]:
             P(["submodels", c10.b64(i), "submodel-elements"], c10.mk_elem("prop", None, 1), "elem"),
             c10.mk_req("DELETE", ["submodels", c10.b64(i)], 1),
             c10.mk_req("PUT", ["shells", c10.b64(c10.IDS[2]), "submodels", c10.b64(i)], 1, 0, {"p": "obj", "o": sm}, c10.serialise(sm, "json")),
-            c10.mk_req("DELETE", ["shells", c10.b64(c10.IDS[2]), "submodels", c10.b64(i)], 1)] + deep_reference_requests(rng)
+            c10.mk_req("DELETE", ["shells", c10.b64(c10.IDS[2]), "submodels", c10.b64(i)], 1)] + deep_reference_requests(rng) \
+        + hostile_identifier_requests(rng)
+
+
+def hostile_identifier_requests(rng: random.Random) -> List[Dict[str, Any]]:
+    """(round 7) identifiers, idShort paths and qualifier types made of strings XML cannot carry, addressed with an XML Accept: the
+    4xx result quotes what the client sent"""
+    out = []
+    for sidx, s_ in enumerate(XML_HOSTILE + ["\ufffe\uffff", "a\ufffeb"]):
+        try:
+            seg = base64.urlsafe_b64encode(s_.encode("utf-8", "surrogatepass")).decode("ascii")
+        except Exception:
+            continue
+        acc = 2 + sidx % 2                      # application/xml, text/xml
+        for top in ("shells", "submodels", "concept-descriptions"):
+            out.append(c10.mk_req(rng.choice(["GET", "DELETE"]), [top, seg], acc))
+        out.append(c10.mk_req("GET", ["submodels", c10.b64(c10.IDS[0]), "qualifiers", seg], acc))
+        out.append(c10.mk_req("DELETE", ["shells", c10.b64(c10.IDS[2]), "submodel-refs", seg], acc))
+    return out
 
 
 def deep_reference_requests(rng: random.Random) -> List[Dict[str, Any]]:
@@ -1167,6 +1185,16 @@ def deep_reference_requests(rng: random.Random) -> List[Dict[str, Any]]:
             '</aas:type><aas:value>%s</aas:value></aas:key><aas:key><aas:type>SubmodelElementCollection</aas:type><aas:value>b</aas:value></aas:key>'
             '<aas:key><aas:type>Property</aas:type><aas:value>%s</aas:value></aas:key></aas:keys></aas:reference>'
             % (i2, rng.choice(["abc", "0", "7", "-1"]))).encode()
+    # (round 7) ... or through an element that cannot have children (Submodel / Property a / Property q): TypeError
+    ref3 = ('<aas:reference xmlns:aas="https://admin-shell.io/aas/3/0"><aas:type>ModelReference</aas:type><aas:keys><aas:key><aas:type>Submodel'
+            '</aas:type><aas:value>%s</aas:value></aas:key><aas:key><aas:type>Property</aas:type><aas:value>a</aas:value></aas:key>'
+            '<aas:key><aas:type>Property</aas:type><aas:value>q</aas:value></aas:key></aas:keys></aas:reference>' % i).encode()
+    sh3 = c10.IDS[4]
+    via3 = ["shells", c10.b64(sh3), "submodels", c10.b64(i)]
+    out += [P(["submodels"], sm, "obj"), P(["shells"], c10.mk_shell(sh3, None, 1, []), "obj"),
+            c10.mk_req("POST", ["shells", c10.b64(sh3), "submodel-refs"], 1, 1, "raw", ref3),
+            c10.mk_req("GET", via3, 1), c10.mk_req("PUT", via3, 1, 0, {"p": "obj", "o": sm}, c10.serialise(sm, "json")),
+            c10.mk_req("DELETE", via3, 1)]
     via2 = ["shells", c10.b64(sh2), "submodels", c10.b64(i2)]
     out += [c10.mk_req("POST", ["submodels"], 1, 0, "raw", sm2), P(["shells"], c10.mk_shell(sh2, None, 1, []), "obj"),
             c10.mk_req("POST", ["shells", c10.b64(sh2), "submodel-refs"], 1, 1, "raw", ref2),
